@@ -114,6 +114,9 @@ class Track(object):
                 if not self.add_notes(item, dur):
                     break
                 duration = value.subtract(duration, dur)
+                if item is not None:
+                    # every part of a split chord gets its own container
+                    item = NoteContainer(item)
 
         def add_chord(chord, duration):
             if isinstance(chord, list):
